@@ -56,9 +56,9 @@ Definition accounted : list acct := [
   mkacct "ach.Batch.isBatchAmount" "batch.ADVControl.TotalCreditEntryDollarAmount" "search-only: optional sub-record dereferenced without a syntactically dominating nil test (constructor / reader invariants are not modelled)";
   mkacct "ach.Batch.isEntryHash" "batch.Control.EntryHash" "search-only: optional sub-record dereferenced without a syntactically dominating nil test (constructor / reader invariants are not modelled)";
   mkacct "ach.Batch.isEntryHash" "batch.ADVControl.EntryHash" "search-only: optional sub-record dereferenced without a syntactically dominating nil test (constructor / reader invariants are not modelled)";
-  mkacct "ach.Batch.isCategory" "batch.GetEntries()[0]" "reviewed: verify() rejects a batch without entries before isCategory";
+  mkacct "ach.Batch.isCategory" "batch.GetEntries()[0]" "reviewed: inside the else of `if len(batch.Entries) == 0 { return … }` (fix 7f797c26; verify() only rejects a batch that has neither entries nor ADV entries)";
   mkacct "ach.Batch.isCategory" "batch.Entries[i]" "search-only: index variable bounded by a loop condition or an earlier check, not resolved by the translator";
-  mkacct "ach.Batch.isCategory" "batch.GetADVEntries()[0]" "reviewed: verify() rejects an ADV batch without entries before isCategory";
+  mkacct "ach.Batch.isCategory" "batch.GetADVEntries()[0]" "reviewed: after `if len(batch.ADVEntries) == 0 { return … }` (fix 7f797c26)";
   mkacct "ach.Batch.isCategory" "batch.ADVEntries[i]" "search-only: index variable bounded by a loop condition or an earlier check, not resolved by the translator";
   mkacct "ach.Batch.IsADV" "batch.GetHeader().StandardEntryClassCode" "search-only: optional sub-record dereferenced without a syntactically dominating nil test (constructor / reader invariants are not modelled)";
   mkacct "ach.Batch.upsertOffsets" "b.Entries[i]" "search-only: index variable bounded by a loop condition or an earlier check, not resolved by the translator";
